@@ -125,7 +125,9 @@ def frexp(x: fp.Float, ctx: fp.Context) -> tuple[fp.Float, fp.Float]:
         # `m` and `x.e` do not depend on how `x` is encoded, so there is no
         # need to normalize it (which fails for a value that carries no context)
         m = ctx.round(fp.RealFloat(s=x.s, e=0, c=x.c), exact=True)
-        e = ctx.round(x.e)
+        # exactly, like the mantissa: a context too narrow for the exponent
+        # must not hand back a different one (48 is not 1.5 * 2**4)
+        e = ctx.round(x.e, exact=True)
         return m, e
 
 ############################################################
